@@ -99,6 +99,14 @@ func genCert(r *mrand.Rand) ([]byte, certCase, error) {
 	}
 	parent := &x509.Certificate{Subject: pkix.Name{CommonName: "Yubico PIV Root CA Serial " + gen.Ident(r, 6), OrganizationalUnit: []string{"x"}}, SubjectKeyId: gen.Bytes(r, 20)}
 	var kinds []string
+	// One certificate in eight has no extensions field at all (a parent without
+	// a key identifier and no extension-bearing template fields): the OPTIONAL
+	// [3] member of the TBSCertificate is absent.
+	if r.Intn(8) == 0 {
+		parent.SubjectKeyId = nil
+		der, err := x509.CreateCertificate(rand.Reader, t, parent, sk.priv.Public(), ik.priv)
+		return der, certCase{Subject: sk.name, Issuer: ik.name, Alg: alg.String(), Exts: "none"}, err
+	}
 	if r.Intn(2) == 0 {
 		t.BasicConstraintsValid = true
 		t.IsCA = r.Intn(2) == 0
